@@ -101,7 +101,12 @@ def malformed():
     # names, prefixes, axes, variables
     for s in (["a-b", "a.b", "a1", "a-", "a.", "a-.", "-a", ".a", "1a", "_", "_a", "a_b", "a--b", "a..b", "a.-b", "a - b", "a -b", "a- b", "a-b-c.d.e", "a:b:c", "a:b:", "a::", "a:", ":a", "::a",
               ":", "::", ":::", "*:a", "*:*", "a:*", "a:*:b", "a:**", "**", "***", "* *", "a:b*", "a :b", "a: b", "a : b", "p:or", "or:p", "p:1", "p:-a", "p:.a", "p:'s'", "p:(", "p:node()",
-              "p:text()", "p:count(a)", "a::b", "child::", "child ::a", "child:: a", "child :: a", "child::a", "child::*", "child::p:a", "child::p:*", "child::node()", "child::text()",
+              "p:text()", "p:count(a)", "a::b", "child::", "child ::a", "child:: a", "child :: a", "child::a",
+              # the neighbourhood of the repairs of F350 / F351 / F352 (both variants of the source must agree with the model)
+              "child  ::  a/b", "child :: *", "child\n::\ta", "child :: p:a", "child :: p:*", "child :: text()", "child :: node ()", "foo :: a", "child :: ",
+              "child : : a", "child :a", "child : a", "child :: *:a", "child::*:a", "child::*:*", "@*:a", "* : a", "*:", "/*:a", "a :b", "a: b", "a : b",
+              "10 div-2", "10 div -2", "a or-b", "a or.", "a or.5", "a and.", "1 mod.5", "a ororb", "a or or", "a or or b", "a orb or c", "a div", "a divb",
+              "self ::node()", "ancestor-or-self :: a", "attribute :: a", "@ a", "@\ta", "child::*", "child::p:a", "child::p:*", "child::node()", "child::text()",
               "child::comment()", "child::count(a)", "child::node", "child::or", "child::child", "child::child::a", "child::@a", "child::.", "child::..", "child::1", "child::'s'",
               "child::$v", "child::-a", "child::/a", "child::(a)", "child:a", "child:::a", "child::a::b", "@child::a", "@a", "@*", "@p:a", "@p:*", "@node()", "@text()", "@@a", "@", "@ a",
               "@1", "@.", "@(a)", "@/a", "a/@b", "a//@b", "a[@b]", "@a/b", "@a[1]", "$", "$a", "$a:b", "$ a", "$a b", "$a/b", "$a[1]", "$a[1]/b", "$a//b", "$a(1)", "$$a", "$1", "$-a", "$*",
